@@ -203,6 +203,7 @@ func Run(c *core.Ctx) {
 		c.ModelCheck("MC_Trie", mcCfg(mode, p.size, p.mcMax, false), tlc.Opts{})
 		// 2. export the state graph of the reduced config and walk every edge on the real trie
 		g := core.NewGraph()
+		g.IsSet = func(path []string) bool { return len(path) == 0 }
 		var conf cfg
 		r := c.ModelCheck("MC_Trie", mcCfg(mode, p.size, p.expMax, true), tlc.Opts{OnTag: func(tag, js string) {
 			switch tag {
@@ -218,7 +219,7 @@ func Run(c *core.Ctx) {
 		if len(conf.Channels) == 0 || g.Edges == 0 {
 			core.Fatalf("no CFG/EDGE lines from TLC")
 		}
-		walks, covered, unreach := g.Walks("[]", 60, rng, p.keepLoops)
+		walks, covered, unreach := g.Walks(g.Key("[]"), 60, rng, p.keepLoops)
 		if unreach > 0 {
 			core.Fatalf("%d exported edges unreachable from the initial state (state key mismatch)", unreach)
 		}
